@@ -65,7 +65,12 @@ def install():
 
 def plan(tier, rng, sl, nslices, stats):
     cfg = TIERS[tier]
-    for _ in range(cfg["random"]):
+    for i in range(cfg["random"]):
+        if i % 40 == 39:
+            c = gcfg.large_case(rng)
+            c["prefix"] = rng.randrange(4)
+            yield c
+            continue
         c = gcfg.random_case(rng, max_terms=rng.choice([1, 2, 2, 3]))
         c["prefix"] = rng.randrange(4)
         yield c
